@@ -4,12 +4,12 @@
     [regexp_helper_calls]) and the load-time VALIDATORS from Gen/C18.v [validators]; both are regenerated from the Go
     AST on every run, as are the `X != ""` conditions around every site ([site_guards]) and the block schema of the
     configuration ([config_blocks], [validate_calls]).  This file only holds the hand-reviewed table saying, for each
-    site, why it cannot crash — or that it can ([CrashKnown]: an OPEN known finding).  The crash rows found while this
-    check was built were repaired in /repo (457aa6b, 4986535, 4008951, 0b2762d, 72c92b8); ONE is open now:
-    C18-upstream-uri-unparsed (promapi.doRequest drops the url.Parse error of an upstream URI that load-time validation
-    never parsed: prometheus.failover entries, discovery prometheusQuery.uri).  Every other site is either backed by a
-    load-time validator (checked mechanically, including the emptiness guards on both sides) or belongs to a reviewed
-    harmless class.  A site that appears in the source without a row here, a validated row whose validator call disappeared, or
+    site, why it cannot crash.  There is NO "known crash" class: every crash row found while this check was built was
+    repaired in /repo (457aa6b, 4986535, 4008951, 0b2762d, 72c92b8, and 6f3f221: promapi.doRequest dropped the url.Parse
+    error of an upstream URI nobody parsed at load — found by an independent reader, not by this table, because round 3
+    did not scan internal/promapi and had the options among the reviewed-harmless ones; both gaps are closed), so a
+    site is either backed by a load-time validator (checked mechanically, including the emptiness guards on both sides)
+    or belongs to a reviewed harmless class.  A site that appears in the source without a row here, a validated row whose validator call disappeared, or
     a use that is no longer under the guard its validator is under, breaks the finite theorems of Proofs/C18_sites.v. *)
 From Coq Require Import List String Ascii Bool.
 From PintV Require Import Common.Bytes Gen.Tables Gen.C18.
@@ -33,8 +33,7 @@ Inductive disposition :=
 | Constant (why : string)
 | Harmless (why : string)
 | HelperDef (why : string)          (* body of a Must/regexp helper: judged at its call sites *)
-| CliFlag (why : string)            (* value comes from the command line, not from the configuration *)
-| CrashKnown (finding : string).    (* an ACCEPTED configuration can crash here: open known finding (known_findings.d/C18.json) *)
+| CliFlag (why : string).           (* value comes from the command line, not from the configuration *)
 
 Record key := K { k_file : string; k_func : string; k_callee : string; k_args : string }.
 
@@ -137,7 +136,6 @@ Definition reviewed : list (key * disposition) := [
   (K "internal/config/match.go" "isMatching" "matchRegex" "ma.Value", ValidatedSame "MatchAnnotation.validate" "validateMatchRegex" "ma.Value");
   (K "internal/config/prometheus.go" "newFailoverGroup" "strictRegex" "prom.Include[]", ValidatedWrapped "PrometheusConfig.validate" "regexp.Compile" "pc.Include[]" "^p$");
   (K "internal/config/prometheus.go" "newFailoverGroup" "strictRegex" "prom.Exclude[]", ValidatedWrapped "PrometheusConfig.validate" "regexp.Compile" "pc.Exclude[]" "^p$");
-  (K "internal/promapi/prometheus.go" "doRequest" "url.Parse" "prom.unsafeURI", CrashKnown "C18-upstream-uri-unparsed");
   (K "internal/promapi/prometheus.go" "dummyReadAll" "io.Copy" "*", Harmless "response body drained, error irrelevant");
   (K "internal/promapi/prometheus.go" "hash" "h.WriteString" "*", Harmless "hash.Hash writes never fail");
   (K "internal/promapi/range.go" "RangeQuery" "MergeRanges" "*", Harmless "second result is a flag (ranges were merged), not an error");
@@ -153,16 +151,6 @@ Definition disposition_of (s : dropped_site) : option disposition :=
   | Some kd => Some (snd kd)
   | None => None
   end.
-
-(** the OPEN known findings whose class is a crash at a reviewed site or through an option nobody validates
-    (edited together with known_findings.d/C18.json) *)
-Definition known_crash_findings : list string := ["C18-upstream-uri-unparsed"].
-
-Definition is_crash (s : dropped_site) : bool :=
-  match disposition_of s with Some (CrashKnown _) => true | _ => false end.
-
-Definition crash_findings : list string :=
-  flat_map (fun s => match disposition_of s with Some (CrashKnown f) => [f] | _ => [] end) all_sites.
 
 (** Must wrappers and the function they drop the error of *)
 Definition must_pairs : list (string * string) :=
@@ -219,7 +207,6 @@ Definition site_ok (s : dropped_site) : bool :=
   | Some (ValidatedSame vf vc va) => callee_compatible (ds_callee s) vc && validator_covers s vf vc va
   | Some (ValidatedDefaulted vf vc va _) => callee_compatible (ds_callee s) vc && has_validator vf vc va false
   | Some (ValidatedWrapped vf vc va _) => has_validator vf vc va true
-  | Some (CrashKnown f) => mem_str f known_crash_findings
   | Some _ => true
   end.
 
@@ -282,6 +269,7 @@ Definition unvalidated_attrs : list (string * string * string) := [
   ("PrometheusTemplate", "Headers", "text templates rendered per discovered target; render errors are returned");
   ("PrometheusTemplate", "PublicURI", "rendered per target, the result is display text");
   ("PrometheusTemplate", "Uptime", "rendered per target; the rendered PrometheusConfig goes through PrometheusConfig.validate (discovery.go)");
+  ("PrometheusTemplate", "Failover", "rendered per target; the rendered PrometheusConfig goes through PrometheusConfig.validate, which parses every failover entry (fix 6f3f221; round 3 had this row with the WRONG reason `a bad URI is a request error`: promapi.doRequest dereferenced the nil URL)");
   ("PrometheusTemplate", "Include", "rendered per target; the rendered PrometheusConfig goes through PrometheusConfig.validate");
   ("PrometheusTemplate", "Exclude", "rendered per target; the rendered PrometheusConfig goes through PrometheusConfig.validate");
   ("PrometheusTemplate", "Tags", "rendered per target; the rendered PrometheusConfig goes through PrometheusConfig.validate");
@@ -308,16 +296,6 @@ Definition unvalidated_attrs : list (string * string * string) := [
   ("RuleNameSettings", "Comment", "free text copied into the report")
 ].
 
-(** options that validate never looks at and whose value CAN crash a later run: open known findings.  (Round 3 had these
-    three among the reviewed exceptions with the reason "a bad URI is a request error" — wrong: promapi.doRequest drops
-    the url.Parse error and dereferences the nil *url.URL.  The rendered discovery template goes through
-    PrometheusConfig.validate, which does not look at failover either.) *)
-Definition unvalidated_crash_attrs : list (string * string * string) := [
-  ("PrometheusConfig", "Failover", "C18-upstream-uri-unparsed");
-  ("PrometheusTemplate", "Failover", "C18-upstream-uri-unparsed");
-  ("PrometheusQuery", "URI", "C18-upstream-uri-unparsed")
-].
-
 Fixpoint mem_pair (a b : string) (l : list (string * string)) : bool :=
   match l with [] => false | (x, y) :: r => (String.eqb a x && String.eqb b y) || mem_pair a b r end.
 
@@ -328,24 +306,13 @@ Definition attr_reviewed (a : config_attr) : bool :=
 
 (** the option is looked at by its block's validate method, or is a boolean, or has a reviewed reason — and its block
     has a validate method at all *)
-Definition attr_known_crash (a : config_attr) : bool :=
-  existsb (fun r => String.eqb (fst (fst r)) (ca_struct a) && String.eqb (snd (fst r)) (ca_field a) &&
-                    mem_str (snd r) known_crash_findings) unvalidated_crash_attrs.
-
-(** the FULL requirement: looked at by validate, boolean, or reviewed as harmless *)
-Definition attr_safe (a : config_attr) : bool :=
+(** the option is looked at by its block's validate method, or is a boolean, or has a reviewed reason — and its block
+    has a validate method at all *)
+Definition attr_ok (a : config_attr) : bool :=
   mem_str (ca_struct a) validate_methods &&
   (attr_mentioned a || String.eqb (ca_type a) "bool" || attr_reviewed a).
-
-(** … or belongs to an open known finding *)
-Definition attr_ok (a : config_attr) : bool := attr_safe a || (mem_str (ca_struct a) validate_methods && attr_known_crash a).
 
 (** a reviewed reason is only kept for an option that exists (an option that validate starts to look at later keeps its
     row: adding validation is not an alarm) *)
 Definition unvalidated_row_live (r : string * string * string) : bool :=
   existsb (fun a => String.eqb (fst (fst r)) (ca_struct a) && String.eqb (snd (fst r)) (ca_field a)) config_attrs.
-
-(** a known-crash option row is only kept while validate still does NOT look at the option (once it does, the finding is
-    repaired and the row has to go) *)
-Definition crash_attr_row_live (r : string * string * string) : bool :=
-  existsb (fun a => String.eqb (fst (fst r)) (ca_struct a) && String.eqb (snd (fst r)) (ca_field a) && negb (attr_mentioned a)) config_attrs.
